@@ -805,6 +805,11 @@ class BptkServer(Flask):
                     resp.headers['Content-Type'] = 'application/json'
                     resp.headers['Access-Control-Allow-Origin'] = '*'
                     return resp
+
+            # externalise while the step lock is still held: once it is released another request may step and save, and a
+            # snapshot taken before that must not be written after it
+            if self._external_state_adapter != None:
+                self._external_state_adapter.save_instance(self._instance_manager._get_instance_state(instance_uuid))
         finally:
             instance.unlock()
 
@@ -812,9 +817,6 @@ class BptkServer(Flask):
             resp = make_response(jsonpickle.dumps(result), 200)
         else:
             resp = make_response('{"error": "no data was returned from run_step"}', 500)
-
-        if self._external_state_adapter != None:
-            self._external_state_adapter.save_instance(self._instance_manager._get_instance_state(instance_uuid))
 
         resp.headers['Content-Type'] = 'application/json'
         resp.headers['Access-Control-Allow-Origin']='*'
@@ -838,6 +840,7 @@ class BptkServer(Flask):
         
         result = []
         locked = False
+        stepping = False
         try:
             instance = self._instance_manager.get_instance(instance_uuid)
             if not request.is_json:
@@ -855,6 +858,7 @@ class BptkServer(Flask):
             content = request.get_json()
             if "numberSteps" in content:
                 if "settings" in content:
+                    stepping = True
                     for i in range(0,content["numberSteps"]):
                         result.append(instance.run_step(settings=content["settings"], flat="flatResults" in content and content["flatResults"] == True))
                 else:
@@ -870,15 +874,17 @@ class BptkServer(Flask):
         except:
             pass
         finally:
-            if locked:
-                instance.unlock()
+            try:
+                # externalise while the step lock is still held (see run-step)
+                if stepping and self._external_state_adapter != None:
+                    self._external_state_adapter.save_instance(self._instance_manager._get_instance_state(instance_uuid))
+            finally:
+                if locked:
+                    instance.unlock()
         if result is not None:
             resp = make_response(jsonpickle.dumps(result), 200)
         else:
             resp = make_response('{"error": "no data was returned from run_step"}', 500)
-
-        if self._external_state_adapter != None:
-            self._external_state_adapter.save_instance(self._instance_manager._get_instance_state(instance_uuid))
 
         resp.headers['Content-Type'] = 'application/json'
         resp.headers['Access-Control-Allow-Origin']='*'
@@ -949,9 +955,12 @@ class BptkServer(Flask):
             except:
                 pass
             finally:
-                release_lock()
-            if self._external_state_adapter != None:
-                self._external_state_adapter.save_instance(self._instance_manager._get_instance_state(instance_uuid))
+                try:
+                    # externalise while the step lock is still held (see run-step)
+                    if self._external_state_adapter != None:
+                        self._external_state_adapter.save_instance(self._instance_manager._get_instance_state(instance_uuid))
+                finally:
+                    release_lock()
 
         resp = Response(streamer())
         resp.call_on_close(release_lock)
